@@ -71,6 +71,44 @@ var (
 	srvErr  error
 )
 
+// observingHandler is the handler of the in-memory servers: it reports what it saw of the TSIG
+// in-band and signs the reply the way RFC 8945 asks a server to.
+func observingHandler(w dns.ResponseWriter, r *dns.Msg) {
+	m := new(dns.Msg)
+	m.SetReply(r)
+	ts := r.IsTsig()
+	st := w.TsigStatus()
+	obs := fmt.Sprintf("has=%v status=%v", ts != nil, st)
+	m.Answer = append(m.Answer, &dns.TXT{Hdr: dns.RR_Header{Name: "observation.", Rrtype: dns.TypeTXT, Class: dns.ClassCHAOS}, Txt: []string{obs}})
+	if ts != nil && st == nil {
+		m.SetTsig(ts.Hdr.Name, ts.Algorithm, 300, time.Now().Unix())
+	}
+	if ts != nil && st == dns.ErrTime {
+		// RFC 8945 5.2.3: a request with a good MAC but a time outside the window is answered
+		// NOTAUTH / BADTIME, signed (over the request MAC), with the server's clock as other data
+		now := time.Now().Unix()
+		m.Rcode = dns.RcodeNotAuth
+		m.SetTsig(ts.Hdr.Name, ts.Algorithm, 300, now)
+		t := m.IsTsig()
+		t.Error = dns.RcodeBadTime
+		t.OtherLen = 6
+		t.OtherData = fmt.Sprintf("%012x", now)
+	}
+	w.WriteMsg(m)
+	if ts != nil && st == nil && len(r.Question) == 1 && r.Question[0].Qtype == dns.TypeAXFR {
+		// a stream of envelopes: the first one was signed over the request MAC and all
+		// variables, the following ones over the previous MAC and the timers (RFC 8945 5.3.1)
+		w.TsigTimersOnly(true)
+		for i := 0; i < 1+int(r.Id%3); i++ {
+			e := new(dns.Msg)
+			e.SetReply(r)
+			e.Answer = append(e.Answer, &dns.TXT{Hdr: dns.RR_Header{Name: "envelope.", Rrtype: dns.TypeTXT, Class: dns.ClassCHAOS}, Txt: []string{fmt.Sprint(i + 1)}})
+			e.SetTsig(ts.Hdr.Name, ts.Algorithm, 300, time.Now().Unix())
+			w.WriteMsg(e)
+		}
+	}
+}
+
 func startServer() (*pipeListener, error) {
 	srvOnce.Do(func() {
 		srvL = &pipeListener{ch: make(chan net.Conn), closed: make(chan struct{})}
@@ -78,41 +116,7 @@ func startServer() (*pipeListener, error) {
 		for _, k := range e2eKeys {
 			secrets[k.name] = base64.StdEncoding.EncodeToString(k.secret)
 		}
-		h := dns.HandlerFunc(func(w dns.ResponseWriter, r *dns.Msg) {
-			m := new(dns.Msg)
-			m.SetReply(r)
-			ts := r.IsTsig()
-			st := w.TsigStatus()
-			obs := fmt.Sprintf("has=%v status=%v", ts != nil, st)
-			m.Answer = append(m.Answer, &dns.TXT{Hdr: dns.RR_Header{Name: "observation.", Rrtype: dns.TypeTXT, Class: dns.ClassCHAOS}, Txt: []string{obs}})
-			if ts != nil && st == nil {
-				m.SetTsig(ts.Hdr.Name, ts.Algorithm, 300, time.Now().Unix())
-			}
-			if ts != nil && st == dns.ErrTime {
-				// RFC 8945 5.2.3: a request with a good MAC but a time outside the window is answered
-				// NOTAUTH / BADTIME, signed (over the request MAC), with the server's clock as other data
-				now := time.Now().Unix()
-				m.Rcode = dns.RcodeNotAuth
-				m.SetTsig(ts.Hdr.Name, ts.Algorithm, 300, now)
-				t := m.IsTsig()
-				t.Error = dns.RcodeBadTime
-				t.OtherLen = 6
-				t.OtherData = fmt.Sprintf("%012x", now)
-			}
-			w.WriteMsg(m)
-			if ts != nil && st == nil && len(r.Question) == 1 && r.Question[0].Qtype == dns.TypeAXFR {
-				// a stream of envelopes: the first one was signed over the request MAC and all
-				// variables, the following ones over the previous MAC and the timers (RFC 8945 5.3.1)
-				w.TsigTimersOnly(true)
-				for i := 0; i < 1+int(r.Id%3); i++ {
-					e := new(dns.Msg)
-					e.SetReply(r)
-					e.Answer = append(e.Answer, &dns.TXT{Hdr: dns.RR_Header{Name: "envelope.", Rrtype: dns.TypeTXT, Class: dns.ClassCHAOS}, Txt: []string{fmt.Sprint(i + 1)}})
-					e.SetTsig(ts.Hdr.Name, ts.Algorithm, 300, time.Now().Unix())
-					w.WriteMsg(e)
-				}
-			}
-		})
+		h := dns.HandlerFunc(observingHandler)
 		started := make(chan struct{})
 		srv := &dns.Server{Listener: srvL, Handler: h, TsigSecret: secrets, NotifyStartedFunc: func() { close(started) }}
 		go func() {
